@@ -59,6 +59,13 @@ def Instr0.numOpens : Instr0 → Nat
   | .exec .ifElse => 2
   | _ => 0
 
+/-- `NumOpens` of an element of a program used as a gene: an instruction opens what the table says, an exec literal
+    (`Exec::Push(payload)`) opens nothing - whatever its payload is - and a block is not a gene -/
+def Prog.numOpens : Prog → Nat
+  | .instr i => i.numOpens
+  | .execPush _ => 0
+  | .block _ => 0
+
 /-- the value an input variable is bound to (`PushInstruction::push_int/float/bool(value)`) -/
 inductive Lit where
   | int (v : Int64) | float (bits : UInt64) | bool (b : Bool)
